@@ -55,6 +55,10 @@ def entity(kind, path):
         C = 'Tw' + s
         return [D.cls(C, [D.ctor(C, [arg(T('A'), 'a'), arg(T('B', 1, '&'), 'b')]), D.method(single(T('B')), 'second', [], 1)],
                       tpl=[D.tparam('A', [I, T('ns::Pose')]), D.tparam('B', [T('double')])])]
+    if kind == 'fwdtd':
+        # a foreign (forward-declared) template given a name by a typedef
+        return [D.fwd('Fw' + s), D.typedef(T(q(path, 'Fw' + s), t=[I]), 'Fw' + s + 'Int'),
+                D.cls('Uf' + s, [D.ctor('Uf' + s)])]
     if kind == 'typedef':
         C = 'Tt' + s
         return [D.cls(C, [D.ctor(C, [arg(T('T'), 'v')]), D.method(single(T('T')), 'get', [])], tpl=[D.tparam('T')]),
@@ -66,7 +70,9 @@ def entity(kind, path):
                           D.ctor(C), D.method(single(I), 'kind', [], 1)])]
     if kind == 'samename':
         # the same class name in every scope, and (below a) in two sibling namespaces that are both called detail
-        out = [D.cls('Same', [D.ctor('Same'), D.method(single(I), 'where' + s, [], 1), D.enum('Tag', ['T' + s])], v=1)]
+        out = [D.cls('Same', [D.ctor('Same'), D.method(single(I), 'where' + s, [], 1), D.enum('Tag', ['T' + s]),
+                              # a parameter of the class's own (qualified) type: guards name the class by its full name
+                              D.method(single(I), 'merge', [arg(T(q(path, 'Same'), 1, '&'), 'o'), arg(I, 'k', '1')])], v=1)]
         if len(path) == 1:
             out += [D.ns('left', [D.ns('detail', [D.cls('Pool', [D.ctor('Pool'), D.method(single(I), 'l', [], 1)], v=1)])]),
                     D.ns('right', [D.ns('detail', [D.cls('Pool', [D.ctor('Pool'), D.method(single(I), 'r', [], 1)], v=1)])])]
